@@ -17,7 +17,7 @@ type libCall struct {
 
 func (ex *Exec) logCall(kind string, args ...value) {
 	ex.impure("library call")
-	ex.io().log = append(ex.io().log, libCall{kind, args})
+	ex.io().log = append(ex.io().log, libCall{kind: kind, args: args})
 }
 
 func (ex *Exec) fabricateT(model interface{}, pkg, name string) *value {
@@ -100,15 +100,28 @@ func init() {
 		},
 		"(*" + g3 + "MeshBuilder).AddVertex": func(fr *frame, args []value) value {
 			ex := fr.i.ex
-			n := 0
-			for _, c := range ex.io().log {
-				if c.kind == "3mf.AddVertex" {
-					n++
-				}
-			}
 			p := args[1].(array)
+			// vertex de-duplication as documented: an equal point gets the index of its first
+			// occurrence, a new point the next free index (equality of the float32 values; the
+			// library's 1e-6 cell is not modelled). Only distinct vertices are logged, so the
+			// i-th logged call is vertex i. Comparisons involving symbolic coordinates fork.
+			cx := ex.C
+			i := 0
+			for _, c := range ex.io().log {
+				if c.kind != "3mf.AddVertex" {
+					continue
+				}
+				if !hasSym(p) && !hasSym(c.args[0]) && !hasSym(c.args[1]) && !hasSym(c.args[2]) {
+					if equals(nil, c.args[0], p[0]) && equals(nil, c.args[1], p[1]) && equals(nil, c.args[2], p[2]) {
+						return uint32(i)
+					}
+				} else if ex.branch(cx.And(symEquals(cx, c.args[0], p[0]), symEquals(cx, c.args[1], p[1]), symEquals(cx, c.args[2], p[2]))) {
+					return uint32(i)
+				}
+				i++
+			}
 			ex.logCall("3mf.AddVertex", p[0], p[1], p[2])
-			return uint32(n) // no de-duplication in the stub: index = call number
+			return uint32(i)
 		},
 		"(*" + g3 + "Encoder).Encode": func(fr *frame, args []value) value {
 			ex := fr.i.ex
